@@ -36,6 +36,8 @@ void removePath(const std::string &p) {
     struct stat sb;
     if (lstat(p.c_str(), &sb) != 0) return;
     if (S_ISDIR(sb.st_mode)) rmdir(p.c_str()); else std::remove(p.c_str());
+    // the target of a symbolic link planted by `fm_prep symlink`
+    std::remove((p + ".real").c_str());
 }
 struct Init { Init() { resetHooks().push_back([]() { St &st = state(); if (!st.path.empty()) removePath(st.path); }); } } init;
 
@@ -106,7 +108,7 @@ DRV_OP(fm_stat) {
 }
 
 // fm_prep <what> …   put something at the path without the library (every handle is dropped first)
-//   missing | empty | junk <n> | dir | plainh5 | trunc <percent> | hdr <version> <format> <id>
+//   missing | empty | junk <n> | dir | symlink | plainh5 | trunc <percent> | hdr <version> <format> <id>
 //   | rmgroup <data|metadata> | rmattr <created_at|updated_at|…> | settime <created_at|updated_at> <seconds>
 DRV_OP(fm_prep) {
     if (a.size() < 2) throw ProtoError("fm_prep arity");
@@ -125,6 +127,15 @@ DRV_OP(fm_prep) {
         return "ok";
     }
     if (what == "dir") { removePath(p); return mkdir(p.c_str(), 0755) == 0 ? "ok" : "err Harness"; }
+    if (what == "symlink") {
+        // the same file, reached through a symbolic link: the path the library is given is the link
+        struct stat sb;
+        if (lstat(p.c_str(), &sb) != 0 || !S_ISREG(sb.st_mode)) return "err Harness";
+        std::string real = p + ".real";
+        std::remove(real.c_str());
+        if (rename(p.c_str(), real.c_str()) != 0) return "err Harness";
+        return symlink(real.c_str(), p.c_str()) == 0 ? "ok" : "err Harness";
+    }
     if (what == "plainh5") {
         removePath(p);
         hid_t h = H5Fcreate(p.c_str(), H5F_ACC_TRUNC, H5P_DEFAULT, H5P_DEFAULT);
